@@ -107,6 +107,7 @@ Record parsecfg := {
   p_key_break : brktest;        (* ... and not newline_keys *)
   p_value_break : brktest;      (* ... and not newline_values *)
   p_replace_guard : bool;       (* both flag-replacement tests check that the block has a child before [-1] *)
+  p_single_block_guard : bool;  (* the single_block early return at a closing brace checks that root has a child *)
 }.
 
 (** Options of Keyvalues.parse that the model covers (allow_escapes is passed to the tokenizer; only True is modelled). *)
